@@ -37,7 +37,7 @@ func init() {
 		"race freedom for every schedule by a frame-rule argument: locations reachable by two operations are prestate of both or global; no public operation writes prestate (R1) or package-level state, the library starts no goroutine, uses no sync primitive and holds no private random generator (R2); every other write targets objects allocated inside the operation.",
 		"nothing is excluded, but the argument is only as good as its assumptions; no happens-before detector is used (different technique).",
 		"math/rand top-level functions and *regexp.Regexp are goroutine safe (documented)")
-	prop("C12", []string{"R24", "R61", "R29", "R25", "R31", "R45", "R49", "R50", "R56", "R62", "R1r", "R86", "R87", "R93", "R98", "R107"},
+	prop("C12", []string{"R24", "R61", "R29", "R25", "R31", "R45", "R49", "R50", "R56", "R62", "R1r", "R86", "R87", "R93", "R98", "R107", "R110"},
 		"necessary conditions only: short reads are handled wherever the stream is read (R24); a failing reader is never taken for end of input (R29); all nine options are consulted (R25); reader errors propagate (R31); type inference tries int, float, bool, string in that order (R45); two necessary conditions of fragmentation independence: no scanner decision is taken on the buffer fill level without refilling (R50), and per-column byte buffers never share a backing array (R49).",
 		"THE CORE OF THE PROPERTY: that the scanner's output is independent of where read boundaries fall, quote compaction, CRLF handling, buffer growth (a hand-written state machine over all documents and read schedules).")
 	prop("C13", []string{"R26", "R6", "R25", "R30", "R34", "R1w", "R1r", "R69", "R93", "R98"},
@@ -46,7 +46,7 @@ func init() {
 	prop("C14", []string{"R27", "R28", "R58", "R6", "R85", "R100", "R107"},
 		"every string that reaches the output - cell values and column names - goes through the escaper (R27); the escaper leaves unescaped only bytes JSON allows unescaped and emits well-formed escapes for all 256 byte values (R28); numbers are written by AppendInt/AppendBool/AppendFloat64f, NaN and null as the constant null (R27); rows in index order (R6).",
 		"the punctuation skeleton as a grammar; ReadJSON inversion.")
-	prop("C15", []string{"R29", "R30", "R31", "R24", "R61", "R41", "R56"},
+	prop("C15", []string{"R29", "R30", "R31", "R24", "R61", "R41", "R56", "R110"},
 		"the whole statement as error-flow obligations: iterator loops consult Err() before any success return (R29), buffered writers' deferred errors are returned (R30), every error produced in scope reaches a sink (R31), read counts are honoured (R24), results are not used before their error test (R41) - on every path, hence for every fault position.",
 		"`never panics` beyond R41/C10's rules.",
 		"io.Writer / database/sql honour their contracts (a short write returns an error)")
